@@ -17,7 +17,7 @@ MUST_HIT = ['Interp.compared', 'Interp.return-value', 'Interp.final-state', 'Fea
             'Feature.where', 'Feature.relate', 'Feature.foreach', 'Feature.while', 'Feature.delete',
             'Feature.select_related', 'Feature.return', 'Feature.break-continue', 'Feature.elif',
             'Selection.select-related-where-first-fails-later-matches',
-            'Selection.select-from-where-first-fails-later-matches', 'Selection.select-where-executed-again']
+            'Selection.select-from-where-first-fails-later-matches', 'Selection.select-where-executed-again', 'Arithmetic.inexact-integer-division']
 MUST_REACH = ['bridgepoint/interpret.py:run_function', 'bridgepoint/interpret.py:ActionWalker.accept_WhileNode',
               'bridgepoint/interpret.py:ActionWalker.accept_ForEachNode',
               'bridgepoint/interpret.py:ActionWalker.accept_SelectFromWhereNode',
@@ -232,7 +232,7 @@ def run_case(ctx, rng, case_policy='lower', layout='canonical'):
         ctx.hit('Feature.' + x)
     for x, n in clean.events.items():
         if not x.startswith('_'):
-            ctx.hit('Selection.' + x, n)
+            ctx.hit(('Selection.' if x.startswith('select') else 'Arithmetic.') + x, n)
     nontrivial = 'loop' in f and 'where' in f and 'relate' in f and len(stmts) >= 8
     ctx.case((pop_desc, text), nontrivial, sample=dict(program=text, returns=exp_ret))
     ctx.count('programs')
